@@ -116,6 +116,17 @@ impl Block {
     pub fn into_cursor(self) -> BlockCursor<Block> {
         BlockCursor::new(self)
     }
+
+    /// Verification hook: FNV-1a hash of the whole decompressed block.
+    #[cfg(grenad_verif)]
+    pub(crate) fn verif_hash(&self) -> u64 {
+        let mut h: u64 = 0xcbf29ce484222325;
+        for b in &self.buffer {
+            h ^= *b as u64;
+            h = h.wrapping_mul(0x100000001b3);
+        }
+        h
+    }
 }
 
 #[derive(Clone)]
@@ -127,6 +138,15 @@ pub struct BlockCursor<B> {
 impl<B> BlockCursor<B> {
     fn new(block: B) -> BlockCursor<B> {
         BlockCursor { block, current_offset: None }
+    }
+}
+
+#[cfg(grenad_verif)]
+impl<B: Borrow<Block>> BlockCursor<B> {
+    /// Verification hook: (hash of the loaded block, in-block offset or `u64::MAX`).
+    pub(crate) fn verif_fingerprint(&self) -> (u64, u64) {
+        let off = self.current_offset.map_or(u64::MAX, |o| o as u64);
+        (self.block.borrow().verif_hash(), off)
     }
 }
 
